@@ -6,12 +6,14 @@ import (
 
 	"verif/checks/c26"
 	"verif/checks/c27"
+	"verif/checks/c28"
 	"verif/checks/c29"
 )
 
 var checks = map[string]func(){
 	"C26": c26.Main,
 	"C27": c27.Main,
+	"C28": c28.Main,
 	"C29": c29.Main,
 }
 
